@@ -18,3 +18,16 @@ Section Run.
     end.
   Definition mismatches := mism 0.
 End Run.
+
+(* variant for properties whose reference is not a function of the input alone (e.g. the order in
+   which a concurrent pipeline emits results): only the property's boolean form is evaluated *)
+Section RunCheck.
+  Context {I O : Type}.
+  Variable check : I -> O -> bool.
+  Fixpoint mismc (i : nat) (cs : list (I * O)) : list (nat * nat) :=
+    match cs with
+    | [] => []
+    | (x, o) :: r => (if check x o then [] else [(i, 1)]) ++ mismc (S i) r
+    end.
+  Definition mismatches_check := mismc 0.
+End RunCheck.
